@@ -44,6 +44,33 @@ INITS = {
 # scenarios: fresh real objects + the environment's actions
 
 
+def capped_pool(log, cap):
+    """A pool that does not take on more demand than its (changeable) limit: a site with a
+    quota (the environment only ever lifts the limit: a pool that cuts its demand
+    on its own would break the bound by itself). What it settles on is logged as a "stored" entry next to the requested write"""
+    from vlib import trioclock
+
+    class CappedPool(trioclock.RecordingPool):
+        limit = cap
+
+        @property
+        def demand(self):
+            return self._get("demand")
+
+        @demand.setter
+        def demand(self, value):
+            self._record("set", "demand", value)
+            self.state["demand"] = value if self.limit is None else min(value, self.limit)
+            self.log.append((trioclock.now(), "stored", self.name, "demand",
+                             self.state["demand"]))
+
+    return CappedPool(log, demand=3.0, supply=4.0)
+
+
+#: environment alphabet of the runs against a capped pool (LinearController)
+CAP_ACTIONS = [("cap", None), ("state", "down"), ("state", "up")]
+
+
 class Scenario:
     """Fresh objects for one execution"""
 
@@ -56,6 +83,9 @@ class Scenario:
         self.keep = []
         service, init = case["service"], case["init"]
         pool = self.pool = trioclock.RecordingPool(log, demand=3.0, supply=4.0)
+        if case.get("cap") is not None:
+            pool = self.pool = capped_pool(log, case["cap"])
+            init = "up"
         if service == "LinearController":
             from cobald.controller.linear import LinearController
 
@@ -143,6 +173,11 @@ class Scenario:
             return lambda: pool.poke(utilisation=utilisation, allocation=allocation)
         if kind == "supply":
             return lambda: pool.poke(supply=value)
+        if kind == "cap":
+            def set_cap():
+                log.append((trioclock.now(), "env", "pool", "cap", value))
+                pool.limit = value
+            return set_cap
         if kind == "stall":
             def stall():
                 # the event loop is stalled (a blocking call elsewhere): time passes, nobody runs
@@ -258,6 +293,13 @@ def judge(case, scenario, run):
             return "%s.run:%s" % (service, kind), (
                 "no %s at t=%s (acted at %s, run lasted %s)" % (
                     what, when, sorted(steps), duration))
+    if service == "DemandSwitch":
+        # the step of the switch is the step of the controller it selects: for one interval
+        for entry in log:
+            if entry[1] == "step" and entry[4] != period:
+                return "DemandSwitch.run:step-for-another-interval", (
+                    "at t=%s controller %r was told to regulate for %r, the interval is %r"
+                    % (entry[0], entry[2], entry[4], period))
     if service == "Stepwise":
         # a step whose rule returns a number sets the demand to it, at that instant
         for entry in log:
@@ -284,8 +326,9 @@ def judge(case, scenario, run):
                                                                request))
     if service == "LinearController":
         points = [(0.0, 20.0)]
+        settled = "stored" if case.get("cap") is not None else "set"
         for entry in log:
-            if entry[1] == "set" and entry[3] == "demand":
+            if entry[1] == settled and entry[3] == "demand":
                 points.append((entry[0], entry[4]))
         rate = scenario.rate
         for (t1, v1), (t2, v2) in itertools.combinations(points, 2):
@@ -322,8 +365,9 @@ def judge_stalled(case, scenario, period):
                 % (first, second, period, case["history"]))
     if service == "LinearController":
         points = [(0.0, 20.0)]
+        settled = "stored" if case.get("cap") is not None else "set"
         for entry in log:
-            if entry[1] == "set" and entry[3] == "demand":
+            if entry[1] == settled and entry[3] == "demand":
                 points.append((entry[0], entry[4]))
         rate = scenario.rate
         for (t1, v1), (t2, v2) in itertools.combinations(points, 2):
@@ -380,10 +424,10 @@ def times(period, duration):
     return sorted(out)
 
 
-def histories(service, period, duration, depth):
+def histories(service, period, duration, depth, actions=None):
     """All action sequences up to ``depth`` with non-decreasing times"""
     slots = [(when, kind, value) for when in times(period, duration)
-             for kind, value in ACTIONS[service]]
+             for kind, value in (actions or ACTIONS[service])]
     for length in range(0, depth + 1):
         for history in itertools.product(slots, repeat=length):
             if all(a[0] <= b[0] for a, b in zip(history, history[1:])):
@@ -449,11 +493,17 @@ def shard(args):
         return shard_stall(args)
     service, period, duration, init, depth, part, parts = args
     acc = Acc()
-    for index, history in enumerate(histories(service, period, duration, depth)):
+    cap = None
+    if isinstance(init, tuple):
+        init, cap = init
+    for index, history in enumerate(histories(service, period, duration, depth,
+                                              CAP_ACTIONS if cap is not None else None)):
         if index % parts != part:
             continue
         case = {"service": service, "period": period, "duration": duration, "init": init,
                 "history": history}
+        if cap is not None:
+            case["cap"] = cap
         problem, executions, steps = run_case(case)
         coinciding = any(when == round(when / period) * period for when, _, _ in history)
         acc.case(nontrivial_key=repr(sorted(case.items())) if history else None,
@@ -484,6 +534,9 @@ def run(ctx):
                     for part in range(parts):
                         shards.append((service, period, duration, init, use, part, parts))
     shards += [("stall", service, period) for service in SERVICES for period in PERIODS]
+    # LinearController over a pool that limits the demand it takes on
+    shards += [("LinearController", period, duration, ("up", 21.0), 2, part, 4)
+               for period in PERIODS for duration in (3.5, 5.5, 7.5) for part in range(4)]
     ctx.pmap(shard, shards)
     ctx.meta.update(
         rule="service x period x run duration x initial pool state x every history of up "
@@ -515,6 +568,10 @@ def run(ctx):
         "required; equality is required after every later boundary once something was "
         "written to the buffer; for writes coinciding with a boundary either order is "
         "accepted",
+        "LinearController over a capped pool (the pool settles on min(written, limit); the "
+        "environment moves the limit: %s): the bound is checked on what the pool settled on; "
+        "DemandSwitch: every delegated regulate() call gets exactly the switch's interval"
+        % (CAP_ACTIONS,),
         "LinearController bound checked on the service's own demand writes "
         "(the environment does not write demand in its scenarios); periods, eps and rates "
         "are dyadic so instants compare exactly",
